@@ -3,7 +3,7 @@ import KG.Spec.Reclaim
 /-! Driver entry points for property C18 (reclaiming dead gateway instances).
 
 * `C18.run   {shards, ops}`            → `{init, steps:[{out, state}]}`: the model run on a history.
-* `C18.judge {shards, ops, oks, states}` → `{violations:[{step, class}]}`: the C18 judge (`KG.Spec.Reclaim.judgeStep`)
+* `C18.judge {shards, ops, outs, states}` → `{violations:[{step, class}]}`: the C18 judge (`KG.Spec.Reclaim.judgeStep`)
   evaluated on states observed on the implementation (`states[0]` initial, `states[k+1]` after op `k`).
 * `C18.shard {shards, names}`          → the model's `GetShardID` of each name.
 * `C18.consts`                         → the regenerated constants.
@@ -63,6 +63,7 @@ def decOp (j : Json) : Except String Op := do
   | "list" => pure (.list (← J.getHex j "u") (← decList decSchema j "schemas"))
   | "unlist" => pure (.unlist (← J.getHex j "u"))
   | "handle" => pure (.handle (← J.getHex j "u"))
+  | "wireRejected" => pure .wireRejected
   | "burst" =>
       let st ← match ← optPair j "st" with
         | none => pure none
@@ -154,6 +155,17 @@ def encOut : Out → Json
   | .acquired rs => J.obj [("k", Json.str "acquired"), ("rs", encArr (fun r : Str × Bool × Int × String =>
       J.obj [("fc", J.hex r.1), ("accept", J.bool r.2.1), ("limit", J.int r.2.2.1), ("err", Json.str r.2.2.2)]) rs)]
 
+def decOut (j : Json) : Except String Out := do
+  match ← J.getStr j "k" with
+  | "unit" => pure .unit
+  | "err" => pure (.err (← J.getStr j "e"))
+  | "reported" => pure (.reported (← J.getHex j "label"))
+  | "acquired" =>
+      let rs ← decList (fun r => do
+        pure ((← J.getHex r "fc"), (← J.getBool r "accept"), (← J.getInt r "limit"), (← J.getStr r "err"))) j "rs"
+      pure (.acquired rs)
+  | k => throw s!"bad out {k}"
+
 /-! ### methods -/
 
 def shardFn (n : Nat) : Ups → Nat := getShardID n
@@ -170,7 +182,7 @@ def doRun (a : Json) : Except String Json := do
   let ops ← decList decOp a "ops"
   pure <| J.obj [("init", encState init), ("steps", Json.arr (runSteps (shardFn n) init ops []).toArray)]
 
-def judgeAll (f : Ups → Nat) : Nat → List Op → List Bool → List State → List Json → List Json
+def judgeAll (f : Ups → Nat) : Nat → List Op → List Out → List State → List Json → List Json
   | k, op :: ops, ok :: oks, pre :: post :: rest, acc =>
     let v := (judgeStep f pre op ok post ++ judgeState post).map fun c => J.obj [("step", J.nat k), ("class", Json.str c)]
     judgeAll f (k + 1) ops oks (post :: rest) (acc ++ v)
@@ -180,7 +192,7 @@ def doJudge (a : Json) : Except String Json := do
   let n ← J.getNat a "shards"
   if n = 0 then throw "panic: integer divide by zero (shard count 0)"
   let ops ← decList decOp a "ops"
-  let oks ← (← J.getArr a "oks").toList.mapM (·.getBool?)
+  let oks ← decList decOut a "outs"
   let states ← decList decState a "states"
   if states.length ≠ ops.length + 1 ∨ oks.length ≠ ops.length then throw "judge: need one state per op plus the initial one"
   pure <| J.obj [("violations", Json.arr (judgeAll (shardFn n) 0 ops oks states []).toArray)]
